@@ -17,7 +17,7 @@ import os, re
 import vlib
 
 WRAPS = ["-Wl,--wrap=clock_gettime,--wrap=pthread_cond_wait,--wrap=pthread_cond_timedwait,--wrap=pthread_cond_signal",
-         "-Wl,--wrap=getgrent_r,--wrap=setgrent,--wrap=endgrent,--wrap=getpwnam_r,--wrap=stat,--wrap=time",
+         "-Wl,--wrap=getgrent_r,--wrap=setgrent,--wrap=endgrent,--wrap=getpwnam_r,--wrap=stat,--wrap=lstat,--wrap=time",
          "-Wl,--wrap=timer_set_relative,--wrap=timer_cancel"]
 SOURCES = ("src/munged/gids.c", "src/munged/hash.c", "src/common/xgetgr.c", "src/common/xgetpw.c",
            "src/munged/timer.c", "src/munged/clock.c")
@@ -77,9 +77,21 @@ def _evaluate(line, out):
     for t in toks:
         if t == "!leak":
             raise Fail("both", "memory leaked while building/swapping maps or retiring timers")
+        m = re.match(r"!stuck(-?\d+):(\d)$", t)
+        if m:
+            b0 = base()
+            dbs = [o[1:] for o in line.split(" ") if o.startswith("G")] + \
+                  [a[1:] for o in line.split(" ") if o.startswith("H") for f in o.split("/")[1:4] for a in f.split("+") if a.startswith("G")]
+            big = max([b0.entry_need(e) for d in dbs for e in b0.parse_db(d)] + [0])
+            raise Fail("C18", "refresh #%s never returned: the timer thread is stuck inside _gids_map_update, no later timer of "
+                       "any service fires (a sentinel timer set for immediate expiry %s, the clock an hour on); the group "
+                       "database has an entry that needs %d bytes (initial xgetgrent buffer %d): log so far: %s"
+                       % (m.group(1), "did NOT fire" if m.group(2) == "0" else "fired", big, b0.GRBUF_INIT, " ".join(toks[-8:])))
         if t == "!timeout":
             raise Fail("both", "the case did not finish (deadlock between gids_update and a running refresh, or "
                        "a timer thread that never comes to rest): log so far: " + " ".join(toks[-12:]))
+        if t == "!norest":
+            continue                                       # judged where it occurs in the sequence
         if t.startswith("!") or t.startswith("?"):
             raise Fail("both", "harness trouble: " + t + " (log tail: " + " ".join(toks[-12:]) + ")")
     W = dict(db=[], pw=[], mtime=0)                       # the databases as they are now
@@ -206,7 +218,12 @@ def _evaluate(line, out):
             elif t[0] == "c":
                 tok_cancel(t)
             else:
-                tok_set(t)
+                idv2, ms2 = tok_set(t)
+                if interval > 0 and ms2 != interval * 1000:
+                    raise Fail("C18", "%s re-armed the refresh %d ms ahead, the update interval is %d s = %d ms: the service "
+                               "does not run at its period (its next run comes %s)" % (
+                                   desc, ms2, interval, interval * 1000,
+                                   "at once, again and again" if ms2 <= 0 else "long before it is due" if ms2 < interval * 1000 else "too late"))
         # the load time is the moment the databases were read; without a scan: the mtime stat() can have seen
         now_s, mtime, snap = opened if opened is not None else (S["clock"] // 1000, W["mtime"], world())
         if flag_snap > 0:
@@ -247,6 +264,9 @@ def _evaluate(line, out):
         while peek() is not None and peek()[0] == "f":
             refresh()
         t = take()
+        if t == "!norest":
+            raise Fail("C18", "the timer thread does not come to rest although the clock stands still: refresh timers keep "
+                       "firing (log tail: %s)" % " ".join(toks[max(0, pos[0] - 8):pos[0]]))
         if t != "|":
             raise Fail("both", "unexpected token %r in the log" % t)
         due = [(e, i) for i, e in S["pending"].items() if e <= S["clock"]]
@@ -272,7 +292,7 @@ def _evaluate(line, out):
     do_sighup("gids_create")
     for op in ops:
         c = op[0]
-        if c in "GPM":
+        if c in "GPMY":
             do_act(op, "top level")
         elif c == "H":
             f = op[1:].split("/")
@@ -311,6 +331,9 @@ class Gen:
         db = []
         for _ in range(r.randrange(0, 4)):
             db.append((r.choice(UNI_G), [r.choice(NAMES + ["ghost"]) for _ in range(r.choice([0, 1, 2, 3]))]))
+        if r.random() < 0.12:
+            # an entry that does not fit xgetgrent's buffer: above the initial size, above 2x, 4x, 8x of it
+            db.insert(r.randrange(0, len(db) + 1), big_entry(r.choice(UNI_G), r.choice([1, 1, 2, 4, 8]), r.choice(NAMES)))
         return db
 
     def pw(self):
@@ -359,6 +382,9 @@ class Gen:
         clock = [0]
         budget = [6]                                       # SIGHUPs inside refreshes (each may start another chain)
         ops = ["G" + b.db_str(self.db()), "P" + b.pw_str(self.pw()), "M%d" % r.choice([0, 0, 1, 5])]
+        if r.random() < 0.35:
+            # /etc/group is a symbolic link (own mtime fixed) to a file that is edited/replaced: mtime = the target's
+            ops.insert(0, "Y%d" % r.choice([0, 0, 3]))
 
         def hook(j):
             t = self.hook_acts(clock, interval, budget) if r.random() < 0.5 else ""
@@ -408,12 +434,42 @@ CORPUS = [
     "T I60,1 U1000|100 G100: Pa=1000 M0 H0//c2000+G100:a+M7// t5000 A t65000 A",
     "T I0,1 U1000|100 G100: Pa=1000 M0 H0///c3000+G100:a+M8/ t5000 A S A",
     "T I60,1 U1000|100 G100: Pa=1000 M0 H0/c2000+G100:a+M6/// t5000 A t65000 A",
+    # the group file is a symbolic link whose target is replaced: the refresh must see the target's mtime
+    "T I60,1 U1000|100 Y0 G100: Pa=1000 M5 t0 A G100:a M61 t60000 A G100: M70 S A",
+    "T I0,1 U1000|100 Y3 G100: Pa=1000 M5 t10000 A H0/G100:a+M12/// S A S A",
+    # --group-update-time at the values where interval_secs * 1000 leaves the int range (the product must be computed
+    # wide): the largest that fits, the first that does not, the first that wraps past zero again, INT_MAX
+    "T I2147483,0 U1000|100 G100:a Pa=1000 M5 t0 A c2147482999 A c1 A c2147483000 A",
+    "T I2147484,0 U1000|100 G100:a Pa=1000 M5 t0 A c2147483999 A c1 A S A c2147484000 A",
+    "T I4294968,1 U1000|100 G100:a Pa=1000 M5 t0 A c704 A c4294967295 A c1 A",
+    "T I2147483647,0 U1000|100 G100:a Pa=1000 M5 t0 A c1000 A c2147483646000 A c1000 A",
 ]
 
 
+def big_entry(gid, k, name):
+    """a group entry needing a little more than k times the initial xgetgrent buffer (one known member, one long name)"""
+    init = base().GRBUF_INIT
+    e = (gid, [name, "L"])
+    return (gid, [name, "L" + "x" * (k * init + 1 - base().entry_need(e))])
+
+
+def big_corpus():
+    """refreshes over a group database with an entry above the initial buffer size, above 2x and 4x of it: the scan
+    must grow the buffer and go on, the callback must return, the next period must come"""
+    b = base()
+    out = []
+    for k in (1, 2, 4):
+        db = [(10, ["a"]), big_entry(100, k, "a"), (11, ["a"])]
+        out.append("T I60,0 U1000|10,11,100 G%s Pa=1000 M5 t0 A t60000 A" % b.db_str(db))
+    db = [big_entry(100, 1, "a")]
+    out.append("T I60,1 U1000|100 G100: Pa=1000 M5 t0 A H0//S// G%s M61 t60000 A t120000 A" % b.db_str(db))
+    return out
+
+
 def gen_cases(ctx, n):
+    base().read_facts()
     g = Gen(ctx.rng)
-    return CORPUS + [g.case() for _ in range(n)]
+    return CORPUS + big_corpus() + [g.case() for _ in range(n)]
 
 
 # --------------------------------------------------------------------------- extraction cross-check
@@ -461,6 +517,8 @@ def gallina_T(line):
             return "AMtime %s" % ("None" if a[1:] == "!" else "(Some %s)" % a[1:])
         if c == "S":
             return "ASighup"
+        if c == "Y":
+            return "ALookups []"
         if c == "t":
             return "AClock %s" % a[1:]
         if c == "c":
@@ -471,7 +529,7 @@ def gallina_T(line):
         return "[%s]" % "; ".join(act(a) for a in (s.split("+") if s else []))
     sops = []
     for op in ops:
-        if op[0] in "GPM":
+        if op[0] in "GPMY":
             sops.append("SPass (%s)" % act(op))
         elif op[0] == "H":
             f = op[1:].split("/")
@@ -531,7 +589,7 @@ def run(ctx, prop, oracle, n_cases, clauses, replay_line=None):
     # a first small chunk, then the rest: a change that deadlocks (a parked refresh holding the gids mutex) costs every
     # affected case its real-time limit, so stop at the first chunk with a failing case
     outs, stderr = [], ""
-    first = len(CORPUS) + 36
+    first = len(CORPUS) + 40
     for pi, part in enumerate((lines[:first], lines[first:])):
         if not part:
             continue
@@ -592,6 +650,10 @@ def report(ctx, prop, res, clauses):
     if mine:
         # prefer a case whose failure is visible in an answer, then the shortest
         l, o, clause, why = min(mine, key=lambda t: (0 if ("keeps answering" in t[3] or "is_member" in t[3]) else 1, len(t[0])))
+        if o.startswith("!crash"):
+            san = [x.strip() for x in res.get("stderr", "").splitlines() if "runtime error:" in x or "ERROR: AddressSanitizer" in x]
+            if san:
+                why += " [%s]" % san[0][:300]
         ctx.violation("gids.c+timer.c: %s (%d failing cases; shortest: %s -> %s)" % (why, len(mine), l[:400], o[:300]),
                       {"pair_case_line": l, "impl_output": o[:2000], "why": why, "clause": clause, "n_failing": len(mine),
                        "stderr": res.get("stderr", "")[-2000:] if o.startswith("!crash") else ""})
